@@ -3,9 +3,9 @@
 # usage: tools/legit_sweep.sh [prefix]
 #   default: the checks of the area the change touches; ALL=1 runs all 20 checks per change (slow: ~3 min each on an idle machine)
 cd /verif
-for d in benign/${1:-[LM]}*-*; do
+for d in benign/${1:-[LMN]}*-*; do
   [ -f $d/patch.diff ] || continue
-  b=$(basename $d); a=$(echo $b | sed 's/^[LM]\([0-9]\)-.*/\1/')
+  b=$(basename $d); a=$(echo $b | sed 's/^[LMN]\([0-9]\)-.*/\1/')
   case $a in
     1) C="C01 C02 C03 C04 C05 C06 C07 C08 C09 C12 C19";;
     2) C="C01 C10 C11 C12 C13 C14 C15 C16 C20";;
